@@ -38,6 +38,7 @@ func corpus() []corpusEntry {
 		{name: "repeat-until-false", script: `repeat local x = 1 until false`, expect: "error", errHas: "context deadline exceeded", slow: true},
 		{name: "for-huge", script: `for i = 1, 1e18 do end return {}`, expect: "error", errHas: "context deadline exceeded", slow: true},
 		{name: "for-math-huge", script: `local n = 0 for i = 1, math.huge do n = n + i end return {n}`, expect: "error", errHas: "context deadline exceeded", slow: true},
+		{name: "for-zero-step", script: `for i = 0, 0, 0 do end return {}`, expect: "error", errHas: "context deadline exceeded", slow: true},
 		{name: "goto-loop", script: `::top:: goto top`, expect: "error"},
 		{name: "pcall-swallows-deadline", script: `while true do pcall(function() while true do end end) end`, expect: "error", errHas: "context deadline exceeded", slow: true},
 		{name: "pcall-error-loop", script: `while true do pcall(error, "x") end`, expect: "error", errHas: "context deadline exceeded", slow: true},
@@ -86,7 +87,7 @@ func corpus() []corpusEntry {
 		{name: "syntax-error", script: `return {`, expect: "error"},
 		{name: "syntax-error-garbage", script: "\x00\x01\xff\xfe = = =", expect: "error"},
 		{name: "unfinished-string", script: `return {"abc`, expect: "error"},
-		{name: "unfinished-long-comment", script: `--[[ never closed`, },
+		{name: "unfinished-long-comment", script: `--[[ never closed`},
 		{name: "binary-chunk-header", script: "\x1bLua\x51\x00\x01\x04\x08\x04\x08\x00", expect: "error"},
 		{name: "empty-script", script: ``, expect: "error", errHas: "expect table output", noIngr: true}, // the provider falls back to the shipped script
 		{name: "only-comment", script: `-- nothing`, expect: "error"},
@@ -233,10 +234,11 @@ func corpus() []corpusEntry {
 		{name: "gmatch-modify", script: `local s = "a b c" local r = {} for w in s:gmatch("%a") do r[#r + 1] = w s = s .. " d" if #r > 100 then break end end return r`},
 		{name: "pattern-balance-frontier", script: `return {string.find("((a)(b))", "%b()"), string.find("THE (quick) fox", "%f[%a]%a+"), string.match("key = value", "(%w+)%s*=%s*(%w+)"), string.find("abc", "[a-c]+$"), string.find("a.b", ".", 1, true), string.find("x", "%b((")}`},
 		{name: "pattern-moderate-backtracking", script: `return {tostring(string.find(string.rep("a", 30), "a*a*a*a*b")), tostring(string.find(string.rep("a", 20), ".-.-.-b")), (string.gsub(string.rep("ab", 30), "a-b-a-c", "x"))}`, expect: "table"},
-		{name: "pattern-long-subject-linear", script: `local s = string.rep("abcdefgh", 2000) return {tostring(s:find("h$")), #s:gsub("%w", "%0%0"), tostring(s:find("xyz", 1, true)), (select(2, s:gsub("a", "a")))}`, expect: "table"},
+		{name: "pattern-long-subject-linear", script: `local s = string.rep("abcdefgh", 250) return {tostring(s:find("h$")), #s:gsub("%w", "%0%0"), tostring(s:find("xyz", 1, true)), (select(2, s:gsub("a", "a")))}`, expect: "table"},
 		{name: "pattern-exponential-find", script: `return {string.find(string.rep("a", 30), "a-a-a-a-a-a-a-a-a-a-a-a-a-a-b")}`, known: sigPatternHang},
 		{name: "pattern-exponential-input", script: `return {string.find(obj.s, "a*a*a*a*a*a*a*a*a*a*a*a*a*a*b")}`, known: sigPatternHang},
 		{name: "pattern-exponential-gsub", script: `return {string.gsub(string.rep("a", 40), ".-.-.-.-.-.-.-.-.-.-.-.-x", "")}`, known: sigPatternHang},
+		{name: "gsub-quadratic-long-subject", script: `return {(string.gsub(string.rep("a", 200000), "a", "b"))}`, known: sigPatternHang},
 		{name: "pattern-quadratic-long-subject", script: `local s = string.rep("a", 20000) return {s:find("a*a*a*b")}`, known: sigPatternHang},
 		// ---- json module
 		{name: "json-encode-edges", script: `local t = {} t.t = t return {tostring(json.encode(t)), tostring(json.encode({[1] = 1, [3] = 3})), tostring(json.encode({1, a = 1})), tostring(json.encode(print)), tostring(json.encode(0 / 0)), tostring(json.encode(nil)), tostring(json.encode("s")), tostring(json.encode({})), tostring(json.encode({{}, {}}))}`, expect: "table"},
